@@ -341,10 +341,15 @@ def finish(report, mod, exhaustive=True):
     confirmed = []
     unconfirmed = 0
     unreachable = 0
+    benign = 0
     known = load_known_findings(pid)
     by_obl = {}
+    per_query = getattr(mod, 'GROUP_BY_QUERY', False)
     for f in report.failures:
-        by_obl.setdefault(f['obligation'], []).append(f)
+        key = f['obligation']
+        if per_query:
+            key = key + ' @ ' + json.dumps(f['q'], sort_keys=True)
+        by_obl.setdefault(key, []).append(f)
     for obl, fs in sorted(by_obl.items()):
         done = False
         tried = 0
@@ -361,6 +366,8 @@ def finish(report, mod, exhaustive=True):
                 if sig is not None:
                     if sig['id'] not in [k['id'] for k in report.known_seen]:
                         report.known_seen.append(dict(id=sig['id'], what=sig['description']))
+                    if sig.get('scope') == 'query' and per_query:
+                        break       # the signature covers this whole (obligation, query) group
                     continue
                 path = save_replay(pid, dict(property=pid, obligation=obl, query=f['q'],
                                              model=f['model'], detail=detail,
@@ -370,6 +377,8 @@ def finish(report, mod, exhaustive=True):
                 break
             elif verdict == 'unreachable':
                 unreachable += 1
+            elif verdict == 'benign':
+                benign += 1
             elif verdict == 'error':
                 report.errors.append(detail)
                 break
@@ -380,6 +389,9 @@ def finish(report, mod, exhaustive=True):
             if unconfirmed and not report.known_seen:
                 report.errors.append("obligation %s: solver model(s) did not reproduce on the real "
                                      "code (model / stub mismatch)" % obl)
+    if benign:
+        report.notes.append("%d stream-bound overrun(s) returned on the real generator (unlucky draws, "
+                            "not stuck loops)" % benign)
     if unreachable:
         report.notes.append("%d counterexample(s) had a pre-state that no history reaches "
                             "(invariant over-approximation); not reported" % unreachable)
